@@ -44,4 +44,10 @@ def main(prop, tier):
             rp = chk.save_replay("line%d.json" % v["line"], v["text"])
             chk.violation("perm-op=%s" % e.get("op", "?"),
                           "real permutation result differs from YkPerm at log line %d: %s" % (v["line"], v["text"]), rp)
+    # last sentence, reader side: lookups in a leaf racing with removes / inserts of other keys in the same leaf (the version word does
+    # not count removes, so only "one load of the permutation word per decision" keeps the reader consistent); scheduler-driven
+    # real executions, every single preemption, judged by TraceLin
+    from props import p_conc
+    chk.assumptions.append("reader side of the last sentence: scheduler-driven executions (random + every single preemption of 2-thread programs) on one-border / full-border / two-border trees, judged per key by TraceLin")
+    p_conc.run_conc(chk, prop, tier, pkey="C19c")
     return chk.finish()
